@@ -4,8 +4,11 @@
 
   Import-free.  `Obj` is the grammar of Python values as the validators see them; a validator is a
   function `Cfg → Obj → Res` returning `ok ()` or the class of the exception that comes out
-  (`VoteError`, `CandidateError`, or a leaked `TypeError`).  The order of the checks mirrors the code,
-  because the order decides which class comes out.
+  (`VoteError`, `CandidateError`, or a leaked `TypeError` — proved unreachable for real Python values).
+  The order of the checks mirrors the code, because the order decides which class comes out.
+  The model follows the tree including the fix commits e8da0bf (non-numeric score -> VoteValueError),
+  e8d1cd6 (eliminator catches CandidateError), 84faad8 (explicit checker dicts get a default) and
+  e5359c9 (only frozensets are shared ranks).
 
   Abstractions (validated by the correspondence, listed in harness/props/C20.py NOT_VERIFIED):
   * numbers are their exact values (`int` and `Fraction` are not distinguished — no validator does);
@@ -158,7 +161,7 @@ def nominate : Nominator → Obj → Res
     else if !allowCoal && c.isCoalition then .error .candidateError
     else .ok ()
 
-/-! ### VoteMagnitudeChecker (vote.py L129-172) -/
+/-! ### VoteMagnitudeChecker (vote.py L129-178) -/
 
 /-- `bounds = (min_value, max_value)`, `None` = not checked -/
 structure Bounds where
@@ -176,18 +179,20 @@ def Bounds.isValid (b : Bounds) (x : Rat) : Bool :=
   (match b.lo with | .none => true | some l => decide (l ≤ x))
   && (match b.hi with | .none => true | some h => decide (x ≤ h))
 
-/-- `check` (vote.py L163-172) on a number -/
+/-- `check` (vote.py L163-178) on a number -/
 def Bounds.check (b : Bounds) (x : Rat) : Res :=
   if b.isValid x then .ok () else .error .voteError
 
-/-- `check` on an arbitrary value (a score): comparing a non-number with a number raises TypeError;
-    with both bounds None nothing is compared -/
+/-- `check` on an arbitrary value (a score): comparing a non-number with a number raises TypeError inside
+    `is_valid`, which `check` reports as VoteValueError (vote.py L171-174); with both bounds None nothing
+    is compared -/
 def Bounds.checkObj (b : Bounds) : Obj → Res
   | .num x => b.check x
-  | _ => if b.active then .error .typeError else .ok ()
+  | _ => if b.active then .error .voteError else .ok ()
 
 /-- the `defaultdict`s built by the constructors: one checker for every key (tuple given), or
-    a checker per listed key and an unconstrained checker otherwise (dict given) -/
+    a checker per listed key and an unconstrained checker otherwise (dict of bounds, or explicit dict of
+    checkers, given) -/
 inductive BoundMap where
   | all (b : Bounds)
   | byKey (m : List (Nat × Bounds))
@@ -214,18 +219,18 @@ def dedup : List Obj → List Obj
   | [] => []
   | x :: xs => if x ∈ xs then dedup xs else x :: dedup xs
 
-/-! ### SimpleVoteValidator (vote.py L193-213) -/
+/-! ### SimpleVoteValidator (vote.py L199-219) -/
 
 def validateSimple (nom : Nominator) (vote : Obj) : Res := nominate nom vote
 
-/-! ### ApprovalVoteValidator (vote.py L217-258) -/
+/-! ### ApprovalVoteValidator (vote.py L223-264) -/
 
 structure ApprovalCfg where
   count : Bounds
   nom : Nominator
 deriving DecidableEq, Repr, Inhabited
 
-/-- vote.py L244-258 -/
+/-- vote.py L250-264 -/
 def validateApproval (cfg : ApprovalCfg) (vote : Obj) : Res :=
   match vote with
   | .fset xs => do
@@ -233,7 +238,7 @@ def validateApproval (cfg : ApprovalCfg) (vote : Obj) : Res :=
     cfg.count.check xs.length
   | _ => .error .voteError           -- VoteTypeError
 
-/-! ### RankedVoteValidator (vote.py L262-355) -/
+/-! ### RankedVoteValidator (vote.py L268-367) -/
 
 structure RankedCfg where
   total : Bounds
@@ -241,13 +246,12 @@ structure RankedCfg where
   nom : Nominator
 deriving DecidableEq, Repr, Inhabited
 
-/-- `isinstance(item, collections.abc.Set)`: frozenset or set -/
+/-- `isinstance(item, frozenset)` (vote.py L354) -/
 def Obj.asSet : Obj → Option (List Obj)
   | .fset xs => some xs
-  | .mset xs => some xs
   | _ => .none
 
-/-- the loop of vote.py L340-351: `i` is `rank_i`, `total` is `total_votes`, `all` the members added to
+/-- the loop of vote.py L353-362: `i` is `rank_i`, `total` is `total_votes`, `all` the members added to
     `all_candidates` so far (with repetitions; the Python set is `dedup all`) -/
 def rankedLoop (cfg : RankedCfg) : Nat → List Obj → Nat → List Obj → Except Rej (Nat × List Obj)
   | _, [], total, all => .ok (total, all)
@@ -271,7 +275,7 @@ def rankedLoop (cfg : RankedCfg) : Nat → List Obj → Nat → List Obj → Exc
           if !item.hashable then .error .typeError
           else rankedLoop cfg (i+1) rest (total + 1) (all ++ [item])
 
-/-- vote.py L325-355 -/
+/-- vote.py L337-367 -/
 def validateRanked (cfg : RankedCfg) (vote : Obj) : Res :=
   match vote with
   | .tuple items =>
@@ -283,7 +287,7 @@ def validateRanked (cfg : RankedCfg) (vote : Obj) : Res :=
       else forEach (nominate cfg.nom) (dedup all)
   | _ => .error .voteError           -- VoteTypeError
 
-/-! ### ScoreVoteValidator (vote.py L358-405) and its two subclasses -/
+/-! ### ScoreVoteValidator (vote.py L370-429) and its two subclasses -/
 
 structure ScoreCfg where
   nScorings : Bounds
@@ -296,7 +300,7 @@ def Obj.asPair : Obj → Option (Obj × Obj)
   | .tuple [c, s] => some (c, s)
   | _ => .none
 
-/-- the loop of vote.py L393-400 -/
+/-- the loop of vote.py L411-418 -/
 def scoreItems (nom : Nominator) : List Obj → Res
   | [] => .ok ()
   | item :: rest =>
@@ -320,7 +324,7 @@ def sumScores : List Obj → Option Rat
   | .num x :: rest => (sumScores rest).map (x + ·)
   | _ :: _ => .none
 
-/-- ScoreVoteValidator.validate, vote.py L388-405 -/
+/-- ScoreVoteValidator.validate, vote.py L406-429 -/
 def validateScoreBase (cfg : ScoreCfg) (vote : Obj) : Res :=
   match vote with
   | .fset items => do
@@ -333,7 +337,7 @@ def validateScoreBase (cfg : ScoreCfg) (vote : Obj) : Res :=
       let sc := cfg.sum.get items.length
       if sc.active then
         match sumScores (scoresOf items) with
-        | .none => .error .typeError
+        | .none => .error .voteError          -- TypeError inside sum() -> VoteValueError (vote.py L423-429)
         | some s => sc.check s
       else .ok ()
   | _ => .error .voteError           -- VoteTypeError
@@ -343,7 +347,7 @@ structure EnumCfg where
   levels : List Obj
 deriving Repr, Inhabited
 
-/-- EnumScoreVoteValidator.validate, vote.py L469-485 -/
+/-- EnumScoreVoteValidator.validate, vote.py L493-509 -/
 def validateEnumScore (cfg : EnumCfg) (vote : Obj) : Res := do
   validateScoreBase cfg.base vote
   match vote with
@@ -356,16 +360,16 @@ structure RangeCfg where
   range : Bounds
 deriving DecidableEq, Repr, Inhabited
 
-/-- RangeVoteValidator.validate, vote.py L549-562 -/
+/-- RangeVoteValidator.validate, vote.py L573-586 -/
 def validateRange (cfg : RangeCfg) (vote : Obj) : Res := do
   validateScoreBase cfg.base vote
   match vote with
   | .fset items => forEach cfg.range.checkObj (scoresOf items)
   | _ => .ok ()
 
-/-! ### InvalidVoteEliminator (convert.py L816-844) -/
+/-! ### InvalidVoteEliminator (convert.py L816-846) -/
 
-/-- `convert`: keys raising VoteError are removed; any other exception propagates -/
+/-- `convert`: keys raising VoteError or CandidateError are removed; any other exception propagates -/
 def eliminate (validate : Obj → Res) : List (Obj × Rat) → Except Rej (List (Obj × Rat))
   | [] => .ok []
   | (k, n) :: rest =>
@@ -375,6 +379,7 @@ def eliminate (validate : Obj → Res) : List (Obj × Rat) → Except Rej (List 
       | .ok out => .ok ((k, n) :: out)
       | .error e => .error e
     | .error .voteError => eliminate validate rest
+    | .error .candidateError => eliminate validate rest
     | .error e => .error e
 
 /-! ### the five validators behind one type (what the driver and the eliminator use) -/
